@@ -95,6 +95,11 @@ pub fn generate(seed: u64, thorough: bool) -> Scenario {
         names.push(f.name.clone());
         scn.functions.push(f);
     }
+    // now and then one function's `cacheable()` is dynamic: true for its first n invocations of an
+    // evaluation, false afterwards (a function that declares itself non-cacheable must be invoked)
+    if rng.chance(1, 8) {
+        scn.functions[0].cacheable_first = Some(1 + rng.below(3) as u32);
+    }
     scn.functions.push(FnSpec::new("t", false, ScriptOut::Nth(1)));
     scn.functions.push(FnSpec::new("r", false, ScriptOut::Nth(1)));
 
@@ -291,7 +296,7 @@ enum St {
     /// t(k, a) seen and returned: the call of F (or a cache hit) must follow
     AfterT { k: i64, a: String },
     /// F invoked, waiting for its Return
-    InF { k: i64, a: String, inv: u64 },
+    InF { k: i64, a: String, inv: u64, cacheable: bool },
     /// F returned Ok(v) or was served from the cache: r(k, v) must follow
     NeedR { k: i64, v: String },
     /// inside t or r themselves
@@ -314,6 +319,7 @@ pub fn check(scn: &Scenario, c: &mut Counters) -> Verdict {
         return Verdict::skip("evaluation did not finish under this schedule (C12)".into());
     }
     let cacheable: HashMap<&str, bool> = scn.functions.iter().map(|f| (f.name.as_str(), f.cacheable)).collect();
+    let dynamic: HashMap<&str, u32> = scn.functions.iter().filter_map(|f| f.cacheable_first.map(|n| (f.name.as_str(), n))).collect();
     let ntasks = scn.tasks.len();
     let mut sig = 0u64;
     let mut nontrivial = false;
@@ -321,6 +327,14 @@ pub fn check(scn: &Scenario, c: &mut Counters) -> Verdict {
     for task in 0..ntasks {
         let mut cache: HashMap<(String, String), String> = HashMap::new();
         let mut distinct_keys_warned = false;
+        // invocations of each function so far in this evaluation (for dynamic `cacheable()`)
+        let mut invoked: HashMap<String, u32> = HashMap::new();
+        let declared_cacheable = |f: &str, invoked: &HashMap<String, u32>| -> bool {
+            match dynamic.get(f) {
+                Some(n) => invoked.get(f).copied().unwrap_or(0) < *n,
+                None => *cacheable.get(f).unwrap_or(&false),
+            }
+        };
         let mut failed_keys: HashMap<(String, String), u32> = HashMap::new();
         let mut observed_r: HashMap<i64, String> = HashMap::new();
         let mut failed_site: HashMap<usize, Vec<(i64, String, String)>> = HashMap::new(); // rule -> (site, fn, msg)*
@@ -355,7 +369,10 @@ pub fn check(scn: &Scenario, c: &mut Counters) -> Verdict {
                 (St::InTracer { next, inv }, Ev::Return { inv: i2, ok: true, .. }) if inv == *i2 => *next,
                 (St::AfterT { k, a }, Ev::Invoke { f, arg, inv, .. }) => {
                     let site = &sites[&k];
-                    let is_cacheable = *cacheable.get(site.f.as_str()).unwrap_or(&false);
+                    let is_cacheable = declared_cacheable(&site.f, &invoked);
+                    if dynamic.contains_key(site.f.as_str()) && !is_cacheable && cache.contains_key(&(site.f.clone(), a.clone())) {
+                        c.bump("hit.call_after_function_stopped_declaring_itself_cacheable");
+                    }
                     let entry = if is_cacheable { cache.get(&(site.f.clone(), a.clone())).cloned() } else { None };
                     if f == "r" {
                         // no invocation of F: only legal as a cache hit with exactly the remembered value
@@ -398,7 +415,8 @@ pub fn check(scn: &Scenario, c: &mut Counters) -> Verdict {
                                 format!("site {k}: {} | invoked with {arg}, the site's argument is {a}", site.f),
                             );
                         }
-                        St::InF { k, a, inv: *inv }
+                        *invoked.entry(site.f.clone()).or_insert(0) += 1;
+                        St::InF { k, a, inv: *inv, cacheable: is_cacheable }
                     } else if f == "t" {
                         return Verdict::violation(
                             "call-skipped",
@@ -411,9 +429,8 @@ pub fn check(scn: &Scenario, c: &mut Counters) -> Verdict {
                         );
                     }
                 }
-                (St::InF { k, a, inv }, Ev::Return { inv: i2, ok, val, .. }) if inv == *i2 => {
+                (St::InF { k, a, inv, cacheable: is_cacheable }, Ev::Return { inv: i2, ok, val, .. }) if inv == *i2 => {
                     let site = &sites[&k];
-                    let is_cacheable = *cacheable.get(site.f.as_str()).unwrap_or(&false);
                     if *ok {
                         hist.push(if is_cacheable { 'm' } else { 'u' });
                         if is_cacheable {
